@@ -44,8 +44,9 @@ func Parse(prop string) *Opts {
 	}
 	flag.StringVar(&o.Tier, "tier", tier, "quick|thorough")
 	flag.Int64Var(&o.Seed, "seed", seed, "PRNG seed")
-	flag.StringVar(&o.Evidence, "evidence", "/verif/evidence/"+prop+".json", "evidence file")
-	flag.StringVar(&o.Replays, "replays", "/verif/replays", "witness directory")
+	root := Root()
+	flag.StringVar(&o.Evidence, "evidence", filepath.Join(root, "evidence", prop+".json"), "evidence file")
+	flag.StringVar(&o.Replays, "replays", filepath.Join(root, "replays"), "witness directory")
 	flag.StringVar(&o.Work, "work", "", "scratch directory")
 	flag.StringVar(&o.Replay, "replay", "", "witness file to replay")
 	flag.Parse()
@@ -55,13 +56,29 @@ func Parse(prop string) *Opts {
 	if o.Work == "" {
 		base := "/dev/shm"
 		if st, err := os.Stat(base); err != nil || !st.IsDir() {
-			base = "/verif/.work"
+			base = filepath.Join(Root(), ".work")
 		}
 		o.Work = filepath.Join(base, fmt.Sprintf("rgverif-%s-%d", prop, os.Getpid()))
 	}
 	_ = os.MkdirAll(o.Work, 0o755)
 	_ = os.MkdirAll(o.Replays, 0o755)
 	return o
+}
+
+// Root is the directory of the verification tree (VERIF_ROOT, default /verif).
+func Root() string {
+	if r := os.Getenv("VERIF_ROOT"); r != "" {
+		return r
+	}
+	return "/verif"
+}
+
+// Repo is the repository under test (RG_REPO, default /repo).
+func Repo() string {
+	if r := os.Getenv("RG_REPO"); r != "" {
+		return r
+	}
+	return "/repo"
 }
 
 // Thorough reports whether the thorough tier was requested.
